@@ -77,7 +77,38 @@ func runC17(c *Ctx) {
 		}
 		c.obF("R17.1", hb, "installs-wrapper-before-probing", okSt, "the wrapper is installed as r.Body before it is probed (the peeked byte stays in the body the caller reads)", "r.Body is not set to the wrapper before HasContent")
 		// … and only then: a declared length — zero included — is the answer; the stream behind it is not asked
-		c.obI("R17.1", probes[0], "probe-only-without-declared-length", guardedBy(probes[0], nil, negate(headerPresent)), "the stream is probed only when no Content-Length is declared: with a declared length the answer is `length > 0`, whatever else the request carries", "the probe is reachable with a Content-Length header present: a declared zero length is overridden by what the stream happens to deliver")
+		// (asked as: once a test has established that the header is present, the probe is out of reach — so that guards
+		// which imply its absence in other words, a nil header map, a positive length answered first, need no table)
+		probedAfterDeclared := false
+		headerValueNonEmpty := factContentLengthNonEmpty(isReq, isCLHeader)
+		for _, b := range hb.Blocks {
+			iff, isIf := lastInstr(b).(*ssa.If)
+			if !isIf || len(b.Succs) != 2 {
+				continue
+			}
+			conds := []ssa.Value{iff.Cond}
+			if phi, isPhi := iff.Cond.(*ssa.Phi); isPhi && phi.Block() == b {
+				conds = phi.Edges
+			}
+			for _, cnd := range conds {
+				if _, isK := constBool(cnd); isK {
+					continue
+				}
+				for i, br := range []bool{true, false} {
+					if !headerValueNonEmpty(cnd, br) {
+						continue
+					}
+					succ := b.Succs[i]
+					if len(succ.Instrs) == 0 {
+						continue
+					}
+					if succ.Instrs[0] == probes[0].(ssa.Instruction) || pathExists(hb, succ.Instrs[0], probes[0], nil, nil) {
+						probedAfterDeclared = true
+					}
+				}
+			}
+		}
+		c.obI("R17.1", probes[0], "probe-only-without-declared-length", !probedAfterDeclared, "the stream is probed only when no Content-Length is declared: with a declared length the answer is `length > 0`, whatever else the request carries", "the probe is reachable with a Content-Length header present: a declared zero length is overridden by what the stream happens to deliver")
 		recv, _ := callArgs(probes[0].Common())
 		okP, _ := allOrigins(recv, oIsValue(w))
 		c.obI("R17.1", probes[0], "probes-installed-wrapper", okP, "the wrapper probed is the one installed", "")
@@ -460,6 +491,33 @@ func factContentLengthDeclared(isReq VPred, isCLHeaderGet VPred) EdgePred {
 		return false
 	}
 	return anyFact(factEqString(isCLHeaderGet, "", false), factLenPositive(isLookupOrElem, true))
+}
+
+// factContentLengthNonEmpty: the edge establishes that the Content-Length header has a non-empty (first) value — what
+// Header.Get(..) != "" says: Get != "", or len(r.Header["Content-Length"][0]) > 0 (NOT the mere presence of the key).
+func factContentLengthNonEmpty(isReq VPred, isCLHeaderGet VPred) EdgePred {
+	isElem := func(v ssa.Value) bool {
+		ad, ok := derefLoad(v)
+		if !ok {
+			return false
+		}
+		ia, isIA := ad.(*ssa.IndexAddr)
+		if !isIA {
+			return false
+		}
+		lk, ok := ia.X.(*ssa.Lookup)
+		if !ok {
+			if ex, isEx := ia.X.(*ssa.Extract); isEx {
+				lk, ok = ex.Tuple.(*ssa.Lookup)
+			}
+		}
+		if !ok || lk == nil {
+			return false
+		}
+		k, isK := constString(lk.Index)
+		return isK && k == "Content-Length" && vFieldLoad("net/http.Request", "Header", isReq)(lk.X)
+	}
+	return anyFact(factEqString(isCLHeaderGet, "", false), factLenPositive(isElem, true))
 }
 
 // isContentLengthPositiveExpr: v is the comparison r.ContentLength > 0 (or >= 1) itself.
